@@ -1,3 +1,857 @@
-//! placeholder
-pub fn serve(_doc: &str, _workers: usize) { unimplemented!() }
-pub fn document() -> serde_json::Value { serde_json::Value::Null }
+//! C07 "API zoo": a live dropshot server whose published OpenAPI document is
+//! replayed against it by /verif/py/oas_c07.py.  Endpoints cover every
+//! extractor combination and response kind; handlers return arbitrary VALID
+//! values of their response type drawn from a seed carried by the request
+//! (header `x-vmon-seed`, else a hash of the URI) and never raise on valid
+//! input.  The operation `tags` carry the case class (tagged classes isolate
+//! the expected findings F5 / F6 and friends).
+#![allow(dead_code)]
+
+use crate::corpus::{
+    AdjacentTag, Flattened, Inner1, InternalTag, MixedExternal, Plain, Renamed, Tree, UnitEnum,
+    UnitEnumDocs, Untagged,
+};
+use dropshot::{
+    endpoint, http_response_found, http_response_see_other, http_response_temporary_redirect,
+    ApiDescription, Body, ConfigDropshot, ErrorStatusCode, FreeformBody, HandlerTaskMode,
+    HttpError, HttpResponseAccepted, HttpResponseCreated, HttpResponseDeleted, HttpResponseError,
+    HttpResponseFound, HttpResponseHeaders, HttpResponseOk, HttpResponseSeeOther,
+    HttpResponseTemporaryRedirect, HttpResponseUpdatedNoContent, MultipartBody, PaginationParams,
+    Path, Query, RequestContext, ResultsPage, ServerBuilder, StreamingBody, TypedBody,
+    UntypedBody, WhichPage,
+};
+use futures::TryStreamExt;
+use schemars::JsonSchema;
+use serde::{Deserialize, Serialize};
+use serde_json::Value;
+use std::collections::{BTreeMap, BTreeSet, HashMap};
+use vmon::rng::{fnv1a, Rng};
+
+pub struct ZooCtx;
+type Rq = RequestContext<ZooCtx>;
+
+fn rng_of(rq: &Rq) -> Rng {
+    let seed = rq
+        .request
+        .headers()
+        .get("x-vmon-seed")
+        .and_then(|v| v.to_str().ok())
+        .and_then(|s| s.parse::<u64>().ok())
+        .unwrap_or_else(|| fnv1a(rq.request.uri().to_string().as_bytes()));
+    Rng::derive(seed, "c07-zoo", 0, 0)
+}
+
+// ---------------------------------------------------------------------------
+// arbitrary valid values
+// ---------------------------------------------------------------------------
+
+pub trait Arb: Sized {
+    fn arb(r: &mut Rng, d: u32) -> Self;
+}
+
+macro_rules! arb_int {
+    ($($t:ty),*) => {$(
+        impl Arb for $t {
+            fn arb(r: &mut Rng, _d: u32) -> Self {
+                match r.below(6) {
+                    0 => <$t>::MIN,
+                    1 => <$t>::MAX,
+                    2 => 0,
+                    3 => 1,
+                    _ => r.next() as $t,
+                }
+            }
+        }
+    )*};
+}
+arb_int!(i8, i16, i32, i64, isize, u8, u16, u32, u64, usize);
+
+macro_rules! arb_nz {
+    ($($t:ty),*) => {$(
+        impl Arb for $t {
+            fn arb(r: &mut Rng, d: u32) -> Self {
+                loop {
+                    if let Some(v) = <$t>::new(Arb::arb(r, d)) {
+                        return v;
+                    }
+                }
+            }
+        }
+    )*};
+}
+arb_nz!(std::num::NonZeroU8, std::num::NonZeroU16, std::num::NonZeroU32, std::num::NonZeroU64);
+
+impl Arb for bool {
+    fn arb(r: &mut Rng, _d: u32) -> Self {
+        r.bool()
+    }
+}
+impl Arb for f64 {
+    fn arb(r: &mut Rng, _d: u32) -> Self {
+        match r.below(8) {
+            0 => 0.0,
+            1 => -0.0,
+            2 => f64::MAX,
+            3 => f64::MIN_POSITIVE,
+            4 => -1.5e300,
+            5 => r.range(-1000, 1000) as f64,
+            _ => (r.f64() - 0.5) * 10f64.powi(r.range(-5, 12) as i32),
+        }
+    }
+}
+impl Arb for f32 {
+    fn arb(r: &mut Rng, _d: u32) -> Self {
+        match r.below(6) {
+            0 => 0.0,
+            1 => f32::MAX,
+            2 => f32::MIN,
+            3 => 0.1,
+            _ => ((r.f64() - 0.5) * 10f64.powi(r.range(-5, 12) as i32)) as f32,
+        }
+    }
+}
+const CHARS: &[char] = &[
+    'a', 'b', 'Z', '0', '9', ' ', '_', '-', '/', '?', '&', '=', '%', '+', '#', '"', '\\', '\'', '<',
+    'é', 'ß', '中', '\u{1F600}', '\n', '\t', '\u{0}', '\u{7f}', '\u{2028}', '{', '}', ',', ':', '.',
+];
+impl Arb for char {
+    fn arb(r: &mut Rng, _d: u32) -> Self {
+        *r.pick(CHARS)
+    }
+}
+impl Arb for String {
+    fn arb(r: &mut Rng, _d: u32) -> Self {
+        let n = *r.pick(&[0usize, 1, 1, 2, 3, 5, 8, 20]);
+        (0..n).map(|_| *r.pick(CHARS)).collect()
+    }
+}
+impl Arb for uuid::Uuid {
+    fn arb(r: &mut Rng, _d: u32) -> Self {
+        uuid::Uuid::from_u128(((r.next() as u128) << 64) | r.next() as u128)
+    }
+}
+impl Arb for chrono::DateTime<chrono::Utc> {
+    fn arb(r: &mut Rng, _d: u32) -> Self {
+        let secs = r.range(-2_000_000_000, 8_000_000_000);
+        let nanos = *r.pick(&[0u32, 1, 500_000_000, 999_999_999, 123_456_000]);
+        chrono::DateTime::from_timestamp(secs, nanos).unwrap()
+    }
+}
+impl Arb for std::net::IpAddr {
+    fn arb(r: &mut Rng, _d: u32) -> Self {
+        if r.bool() {
+            std::net::IpAddr::V4(std::net::Ipv4Addr::from(r.next() as u32))
+        } else {
+            std::net::IpAddr::V6(std::net::Ipv6Addr::from(((r.next() as u128) << 64) | r.next() as u128))
+        }
+    }
+}
+impl<T: Arb> Arb for Option<T> {
+    fn arb(r: &mut Rng, d: u32) -> Self {
+        if r.chance(1, 3) {
+            None
+        } else {
+            Some(T::arb(r, d))
+        }
+    }
+}
+impl<T: Arb> Arb for Box<T> {
+    fn arb(r: &mut Rng, d: u32) -> Self {
+        Box::new(T::arb(r, d))
+    }
+}
+impl<T: Arb> Arb for Vec<T> {
+    fn arb(r: &mut Rng, d: u32) -> Self {
+        let n = if d > 3 { 0 } else { r.usize(4) };
+        (0..n).map(|_| T::arb(r, d + 1)).collect()
+    }
+}
+impl<T: Arb + Ord> Arb for BTreeSet<T> {
+    fn arb(r: &mut Rng, d: u32) -> Self {
+        Vec::<T>::arb(r, d).into_iter().collect()
+    }
+}
+impl<T: Arb> Arb for BTreeMap<String, T> {
+    fn arb(r: &mut Rng, d: u32) -> Self {
+        let n = if d > 3 { 0 } else { r.usize(4) };
+        (0..n).map(|_| (String::arb(r, d), T::arb(r, d + 1))).collect()
+    }
+}
+impl<T: Arb> Arb for HashMap<String, T> {
+    fn arb(r: &mut Rng, d: u32) -> Self {
+        BTreeMap::<String, T>::arb(r, d).into_iter().collect()
+    }
+}
+impl Arb for Value {
+    fn arb(r: &mut Rng, d: u32) -> Self {
+        match r.below(if d > 2 { 5 } else { 7 }) {
+            0 => Value::Null,
+            1 => Value::Bool(r.bool()),
+            2 => serde_json::json!(i64::arb(r, d)),
+            3 => serde_json::json!((r.f64() - 0.5) * 1e6),
+            4 => Value::String(String::arb(r, d)),
+            5 => Value::Array(Vec::<Value>::arb(r, d + 1)),
+            _ => Value::Object(BTreeMap::<String, Value>::arb(r, d + 1).into_iter().collect()),
+        }
+    }
+}
+
+macro_rules! arb_struct {
+    ($t:ident { $($f:ident),* $(,)? }) => {
+        impl Arb for $t {
+            fn arb(r: &mut Rng, d: u32) -> Self {
+                $t { $($f: Arb::arb(r, d + 1)),* }
+            }
+        }
+    };
+}
+
+arb_struct!(Plain { a, b, c });
+arb_struct!(Inner1 { x, y });
+impl Arb for UnitEnum {
+    fn arb(r: &mut Rng, _d: u32) -> Self {
+        match r.below(3) {
+            0 => UnitEnum::Alpha,
+            1 => UnitEnum::Beta,
+            _ => UnitEnum::Gamma,
+        }
+    }
+}
+impl Arb for UnitEnumDocs {
+    fn arb(r: &mut Rng, _d: u32) -> Self {
+        match r.below(3) {
+            0 => UnitEnumDocs::First,
+            1 => UnitEnumDocs::Second,
+            _ => UnitEnumDocs::Third,
+        }
+    }
+}
+impl Arb for MixedExternal {
+    fn arb(r: &mut Rng, d: u32) -> Self {
+        match r.below(6) {
+            0 => MixedExternal::Unit,
+            1 => MixedExternal::Newtype(Arb::arb(r, d)),
+            2 => MixedExternal::NewtypeStruct(Arb::arb(r, d)),
+            3 => MixedExternal::Struct { a: Arb::arb(r, d), b: Arb::arb(r, d) },
+            4 => MixedExternal::Renamed { x: Arb::arb(r, d) },
+            _ => MixedExternal::OptNewtype(Arb::arb(r, d)),
+        }
+    }
+}
+impl Arb for InternalTag {
+    fn arb(r: &mut Rng, d: u32) -> Self {
+        match r.below(4) {
+            0 => InternalTag::Unit,
+            1 => InternalTag::Struct { a: Arb::arb(r, d), b: Arb::arb(r, d) },
+            2 => InternalTag::NewtypeStruct(Arb::arb(r, d)),
+            _ => InternalTag::Renamed { flag: Arb::arb(r, d) },
+        }
+    }
+}
+impl Arb for AdjacentTag {
+    fn arb(r: &mut Rng, d: u32) -> Self {
+        match r.below(5) {
+            0 => AdjacentTag::Unit,
+            1 => AdjacentTag::Newtype(Arb::arb(r, d)),
+            2 => AdjacentTag::NewtypeString(Arb::arb(r, d)),
+            3 => AdjacentTag::Struct { a: Arb::arb(r, d), b: Arb::arb(r, d) },
+            _ => AdjacentTag::List(Arb::arb(r, d)),
+        }
+    }
+}
+impl Arb for Untagged {
+    fn arb(r: &mut Rng, d: u32) -> Self {
+        match r.below(4) {
+            0 => Untagged::Num(Arb::arb(r, d)),
+            1 => Untagged::Text(Arb::arb(r, d)),
+            2 => Untagged::Struct { a: Arb::arb(r, d), b: Arb::arb(r, d) },
+            _ => Untagged::List(Arb::arb(r, d)),
+        }
+    }
+}
+impl Arb for Tree {
+    fn arb(r: &mut Rng, d: u32) -> Self {
+        Tree { label: Arb::arb(r, d), kids: if d > 2 { vec![] } else { Arb::arb(r, d + 1) } }
+    }
+}
+impl Arb for Renamed {
+    fn arb(r: &mut Rng, d: u32) -> Self {
+        Renamed {
+            first_field: Arb::arb(r, d),
+            second_field: Arb::arb(r, d),
+            third_field_name: Arb::arb(r, d),
+            fourth: Arb::arb(r, d),
+        }
+    }
+}
+impl Arb for Flattened {
+    fn arb(r: &mut Rng, d: u32) -> Self {
+        Flattened {
+            own: Arb::arb(r, d),
+            one: Arb::arb(r, d),
+            two: crate::corpus::Inner2 { z: Arb::arb(r, d), w: Arb::arb(r, d) },
+        }
+    }
+}
+
+// ---------------------------------------------------------------------------
+// zoo types
+// ---------------------------------------------------------------------------
+
+macro_rules! sd {
+    ($($i:item)*) => { $( #[derive(Serialize, Deserialize, JsonSchema, Debug, Clone)] $i )* };
+}
+
+sd! {
+    pub struct PBasic { pub s: String, pub n: u32 }
+    pub struct PTyped { pub id: uuid::Uuid, pub kind: UnitEnum, pub flag: bool, pub big: i64 }
+    pub struct PId { pub id: u16 }
+
+    pub struct QScalars {
+        pub s: String, pub n: u32, pub b: bool, pub f: f64, pub i: i8, pub c: char,
+        pub id: uuid::Uuid, pub t: chrono::DateTime<chrono::Utc>, pub ip: std::net::IpAddr,
+        pub nz: std::num::NonZeroU16, pub big: u64,
+    }
+    pub struct QOptional {
+        /// the only required one
+        pub req: String,
+        pub os: Option<String>, pub on: Option<i32>, pub ob: Option<bool>,
+        #[serde(default)] pub ds: String,
+        #[serde(default = "forty_two")] pub dn: i32,
+        #[serde(default)] pub db: bool,
+    }
+    #[serde(rename_all = "kebab-case")]
+    pub struct QRenamed { pub first_name: String, #[serde(rename = "N")] pub number: Option<u8> }
+    pub struct QEnums { pub e: UnitEnum, pub oe: Option<UnitEnum>, pub de: UnitEnumDocs }
+    pub struct QFlatInnerS { pub fa: String, pub fb: Option<String> }
+    pub struct QFlattenedS { pub own: String, #[serde(flatten)] pub inner: QFlatInnerS }
+    pub struct QFlatInnerT { pub n: u32, pub b: Option<bool> }
+    pub struct QFlattenedT { pub own: String, #[serde(flatten)] pub inner: QFlatInnerT }
+    pub struct QConstrained {
+        #[schemars(range(min = 1, max = 100))] pub page: u32,
+        #[schemars(length(min = 1, max = 16))] pub name: String,
+        #[schemars(regex(pattern = "^[a-z]*$"))] pub slug: Option<String>,
+    }
+    #[serde(untagged)]
+    pub enum QWhich { ById { id: String }, ByName { name: String } }
+    pub struct QFlattenUntagged { pub req: String, #[serde(flatten)] pub which: QWhich }
+    pub struct QSmall { pub q: Option<String>, pub n: u8 }
+
+    pub struct Ints {
+        pub i8_: i8, pub i16_: i16, pub i32_: i32, pub i64_: i64,
+        pub u8_: u8, pub u16_: u16, pub u32_: u32, pub u64_: u64,
+        pub nz: std::num::NonZeroU32, pub onz: Option<std::num::NonZeroU64>,
+    }
+    pub struct Floats { pub f: f32, pub d: f64, pub of: Option<f32>, pub vd: Vec<f64> }
+    pub struct Options {
+        pub a: Option<String>, pub b: Option<u32>, pub c: Option<bool>, pub d: Option<Plain>,
+        pub e: Option<Vec<String>>, pub g: Option<UnitEnum>, pub i: Option<BTreeMap<String, u8>>,
+    }
+    pub struct Defaults {
+        #[serde(default)] pub a: String,
+        #[serde(default = "forty_two")] pub c: i32,
+        #[serde(default)] pub e: Vec<u8>,
+        #[serde(default)] pub f: Option<bool>,
+        pub required_one: u8,
+    }
+    #[serde(deny_unknown_fields)]
+    pub struct Deny { pub a: u8, pub b: Option<String> }
+    pub struct Maps {
+        pub m: BTreeMap<String, u32>, pub hm: HashMap<String, Plain>, pub set: BTreeSet<String>,
+        pub mv: BTreeMap<String, Vec<String>>, pub arr: [u8; 3],
+    }
+    pub struct Nested { pub plain: Plain, pub list: Vec<NestedItem>, pub map: BTreeMap<String, NestedItem> }
+    pub struct NestedItem { pub e: MixedExternal, pub o: Option<Inner1>, pub u: UnitEnumDocs }
+    pub struct Stringy {
+        pub s: String, pub c: char, pub id: uuid::Uuid, pub t: chrono::DateTime<chrono::Utc>,
+        pub ip: std::net::IpAddr,
+    }
+    pub struct Form { pub name: String, pub age: u8, pub nick: Option<String>, pub admin: bool }
+    pub struct Everything { pub note: String, pub plain: Plain, pub tags: Vec<String> }
+
+    pub struct BytesInfo { pub len: u64, pub sum: u64 }
+    pub struct Echo { pub what: String, pub values: BTreeMap<String, Value> }
+
+    pub struct HdrOut {
+        #[serde(rename = "x-zoo-etag")] pub etag: String,
+        #[serde(rename = "x-zoo-second")] pub second: String,
+    }
+
+    pub struct ScanParams { pub project: String, #[serde(default = "sort_default")] pub sort: SortMode }
+    #[serde(rename_all = "snake_case")]
+    pub enum SortMode { ByNameAscending, ByNameDescending }
+    pub struct PageSel { pub project: String, pub sort: SortMode, pub last: String }
+    pub struct Item { pub name: String, pub n: u32 }
+}
+
+/// Values inside their documented ranges.
+#[derive(Serialize, Deserialize, JsonSchema, Debug, Clone)]
+pub struct RangedOut {
+    #[schemars(range(min = 1, max = 10))]
+    pub a: u32,
+    #[schemars(range(min = -5, max = 5))]
+    pub b: i64,
+    #[schemars(length(min = 1, max = 8))]
+    pub s: String,
+    #[schemars(length(max = 3))]
+    pub v: Vec<u8>,
+    #[schemars(regex(pattern = "^[a-z]+$"))]
+    pub lower: String,
+}
+impl Arb for RangedOut {
+    fn arb(r: &mut Rng, d: u32) -> Self {
+        RangedOut {
+            a: r.range(1, 10) as u32,
+            b: r.range(-5, 5),
+            s: (0..r.range(1, 8)).map(|_| *r.pick(CHARS)).collect(),
+            v: (0..r.range(0, 3)).map(|_| u8::arb(r, d)).collect(),
+            lower: (0..r.range(1, 6)).map(|_| (b'a' + r.below(26) as u8) as char).collect(),
+        }
+    }
+}
+
+fn forty_two() -> i32 {
+    42
+}
+fn sort_default() -> SortMode {
+    SortMode::ByNameAscending
+}
+
+arb_struct!(PBasic { s, n });
+arb_struct!(PTyped { id, kind, flag, big });
+arb_struct!(QScalars { s, n, b, f, i, c, id, t, ip, nz, big });
+arb_struct!(QOptional { req, os, on, ob, ds, dn, db });
+arb_struct!(QRenamed { first_name, number });
+arb_struct!(QEnums { e, oe, de });
+arb_struct!(Ints { i8_, i16_, i32_, i64_, u8_, u16_, u32_, u64_, nz, onz });
+arb_struct!(Floats { f, d, of, vd });
+arb_struct!(Options { a, b, c, d, e, g, i });
+arb_struct!(Defaults { a, c, e, f, required_one });
+arb_struct!(Deny { a, b });
+arb_struct!(Nested { plain, list, map });
+arb_struct!(NestedItem { e, o, u });
+arb_struct!(Stringy { s, c, id, t, ip });
+arb_struct!(Form { name, age, nick, admin });
+arb_struct!(Everything { note, plain, tags });
+arb_struct!(BytesInfo { len, sum });
+arb_struct!(Echo { what, values });
+arb_struct!(Item { name, n });
+impl Arb for Maps {
+    fn arb(r: &mut Rng, d: u32) -> Self {
+        Maps {
+            m: Arb::arb(r, d),
+            hm: Arb::arb(r, d),
+            set: Arb::arb(r, d),
+            mv: Arb::arb(r, d),
+            arr: [Arb::arb(r, d), Arb::arb(r, d), Arb::arb(r, d)],
+        }
+    }
+}
+
+fn header_safe(r: &mut Rng) -> String {
+    let n = r.range(0, 12);
+    (0..n).map(|_| (0x21 + r.below(0x5e) as u8) as char).collect::<String>()
+}
+impl Arb for HdrOut {
+    fn arb(r: &mut Rng, _d: u32) -> Self {
+        // String fields only: the header serialiser (to_map) supports nothing else
+        HdrOut { etag: header_safe(r), second: header_safe(r) }
+    }
+}
+
+fn ok<T: Arb + Serialize + JsonSchema + Send + Sync + 'static>(rq: &Rq) -> Result<HttpResponseOk<T>, HttpError> {
+    let mut r = rng_of(rq);
+    Ok(HttpResponseOk(T::arb(&mut r, 0)))
+}
+
+// ---------------------------------------------------------------------------
+// endpoints: parameters
+// ---------------------------------------------------------------------------
+
+#[endpoint { method = GET, path = "/zoo/path/{s}/{n}", tags = ["path"] }]
+async fn path_basic(rq: Rq, _p: Path<PBasic>) -> Result<HttpResponseOk<PBasic>, HttpError> {
+    ok(&rq)
+}
+#[endpoint { method = GET, path = "/zoo/path-typed/{id}/{kind}/{flag}/{big}", tags = ["path"] }]
+async fn path_typed(rq: Rq, _p: Path<PTyped>) -> Result<HttpResponseOk<PTyped>, HttpError> {
+    ok(&rq)
+}
+#[endpoint { method = GET, path = "/zoo/query/scalars", tags = ["query"] }]
+async fn query_scalars(rq: Rq, _q: Query<QScalars>) -> Result<HttpResponseOk<QScalars>, HttpError> {
+    ok(&rq)
+}
+#[endpoint { method = GET, path = "/zoo/query/optional", tags = ["query"] }]
+async fn query_optional(rq: Rq, _q: Query<QOptional>) -> Result<HttpResponseOk<QOptional>, HttpError> {
+    ok(&rq)
+}
+#[endpoint { method = GET, path = "/zoo/query/renamed", tags = ["query"] }]
+async fn query_renamed(rq: Rq, _q: Query<QRenamed>) -> Result<HttpResponseOk<QRenamed>, HttpError> {
+    ok(&rq)
+}
+#[endpoint { method = GET, path = "/zoo/query/enums", tags = ["query"] }]
+async fn query_enums(rq: Rq, _q: Query<QEnums>) -> Result<HttpResponseOk<QEnums>, HttpError> {
+    ok(&rq)
+}
+#[endpoint { method = GET, path = "/zoo/query/flattened-strings", tags = ["query"] }]
+async fn query_flattened_strings(rq: Rq, _q: Query<QFlattenedS>) -> Result<HttpResponseOk<Plain>, HttpError> {
+    ok(&rq)
+}
+/// flattened struct whose members are not strings
+#[endpoint { method = GET, path = "/zoo/query/flattened-typed", tags = ["class:flattened-typed-query"] }]
+async fn query_flattened_typed(rq: Rq, _q: Query<QFlattenedT>) -> Result<HttpResponseOk<Plain>, HttpError> {
+    ok(&rq)
+}
+#[endpoint { method = GET, path = "/zoo/query/constrained", tags = ["query"] }]
+async fn query_constrained(rq: Rq, _q: Query<QConstrained>) -> Result<HttpResponseOk<Plain>, HttpError> {
+    ok(&rq)
+}
+/// F6: flattened untagged enum in a query type
+#[endpoint { method = GET, path = "/zoo/query/flatten-untagged", tags = ["class:flattened-untagged-enum-query"] }]
+async fn query_flatten_untagged(rq: Rq, _q: Query<QFlattenUntagged>) -> Result<HttpResponseOk<Plain>, HttpError> {
+    ok(&rq)
+}
+#[endpoint { method = GET, path = "/zoo/path-query/{id}", tags = ["path", "query"] }]
+async fn path_and_query(rq: Rq, _p: Path<PId>, _q: Query<QSmall>) -> Result<HttpResponseOk<Echo>, HttpError> {
+    ok(&rq)
+}
+
+// ---------------------------------------------------------------------------
+// endpoints: bodies
+// ---------------------------------------------------------------------------
+
+macro_rules! body_ep {
+    ($fname:ident, $method:ident, $path:literal, $ty:ty, $tag:literal) => {
+        #[endpoint { method = $method, path = $path, tags = [$tag] }]
+        async fn $fname(rq: Rq, _b: TypedBody<$ty>) -> Result<HttpResponseOk<$ty>, HttpError> {
+            ok(&rq)
+        }
+    };
+}
+body_ep!(body_plain, POST, "/zoo/body/plain", Plain, "body");
+body_ep!(body_nested, PUT, "/zoo/body/nested", Nested, "body");
+body_ep!(body_ints, POST, "/zoo/body/ints", Ints, "body");
+body_ep!(body_floats, POST, "/zoo/body/floats", Floats, "body");
+body_ep!(body_options, POST, "/zoo/body/options", Options, "body");
+body_ep!(body_defaults, POST, "/zoo/body/defaults", Defaults, "body");
+body_ep!(body_renamed, POST, "/zoo/body/renamed", Renamed, "body");
+body_ep!(body_flattened, POST, "/zoo/body/flattened", Flattened, "body");
+body_ep!(body_deny, POST, "/zoo/body/deny-unknown", Deny, "body");
+body_ep!(body_maps, POST, "/zoo/body/maps", Maps, "body");
+body_ep!(body_enum_external, POST, "/zoo/body/enum-external", MixedExternal, "body-enum");
+body_ep!(body_enum_internal, POST, "/zoo/body/enum-internal", InternalTag, "body-enum");
+body_ep!(body_enum_adjacent, POST, "/zoo/body/enum-adjacent", AdjacentTag, "body-enum");
+body_ep!(body_enum_untagged, POST, "/zoo/body/enum-untagged", Untagged, "body-enum");
+body_ep!(body_unit_enum, PATCH, "/zoo/body/unit-enum", UnitEnumDocs, "body-enum");
+body_ep!(body_vec, POST, "/zoo/body/vec", Vec<Plain>, "body");
+body_ep!(body_value, POST, "/zoo/body/value", Value, "body");
+body_ep!(body_stringy, POST, "/zoo/body/stringy", Stringy, "body");
+body_ep!(body_tree, POST, "/zoo/body/tree", Tree, "body");
+body_ep!(body_map_top, PUT, "/zoo/body/map", BTreeMap<String, Plain>, "body");
+
+#[endpoint { method = POST, path = "/zoo/body/urlencoded", content_type = "application/x-www-form-urlencoded", tags = ["body-urlencoded"] }]
+async fn body_urlencoded(rq: Rq, _b: TypedBody<Form>) -> Result<HttpResponseOk<Form>, HttpError> {
+    ok(&rq)
+}
+#[endpoint { method = PUT, path = "/zoo/body/untyped", tags = ["body-raw"] }]
+async fn body_untyped(_rq: Rq, b: UntypedBody) -> Result<HttpResponseOk<BytesInfo>, HttpError> {
+    let bytes = b.as_bytes();
+    Ok(HttpResponseOk(BytesInfo { len: bytes.len() as u64, sum: bytes.iter().map(|b| *b as u64).sum() }))
+}
+#[endpoint { method = PUT, path = "/zoo/body/streaming", tags = ["body-raw"] }]
+async fn body_streaming(_rq: Rq, b: StreamingBody) -> Result<HttpResponseOk<BytesInfo>, HttpError> {
+    let mut len = 0u64;
+    let mut sum = 0u64;
+    let stream = b.into_stream();
+    tokio::pin!(stream);
+    while let Some(chunk) = stream.try_next().await? {
+        len += chunk.len() as u64;
+        sum += chunk.iter().map(|b| *b as u64).sum::<u64>();
+    }
+    Ok(HttpResponseOk(BytesInfo { len, sum }))
+}
+#[endpoint { method = POST, path = "/zoo/body/multipart", tags = ["class:multipart"] }]
+async fn body_multipart(_rq: Rq, mut b: MultipartBody) -> Result<HttpResponseOk<BytesInfo>, HttpError> {
+    let mut len = 0u64;
+    let mut n = 0u64;
+    while let Some(field) = b
+        .content
+        .next_field()
+        .await
+        .map_err(|e| HttpError::for_bad_request(None, format!("multipart: {e}")))?
+    {
+        let bytes = field
+            .bytes()
+            .await
+            .map_err(|e| HttpError::for_bad_request(None, format!("multipart field: {e}")))?;
+        len += bytes.len() as u64;
+        n += 1;
+    }
+    Ok(HttpResponseOk(BytesInfo { len, sum: n }))
+}
+/// path + query + body together
+#[endpoint { method = PUT, path = "/zoo/all/{id}", tags = ["path", "query", "body"] }]
+async fn all_three(
+    rq: Rq,
+    _p: Path<PId>,
+    _q: Query<QSmall>,
+    _b: TypedBody<Everything>,
+) -> Result<HttpResponseCreated<Everything>, HttpError> {
+    let mut r = rng_of(&rq);
+    Ok(HttpResponseCreated(Everything::arb(&mut r, 0)))
+}
+
+// ---------------------------------------------------------------------------
+// endpoints: response kinds
+// ---------------------------------------------------------------------------
+
+#[endpoint { method = POST, path = "/zoo/resp/created", tags = ["response"] }]
+async fn resp_created(rq: Rq) -> Result<HttpResponseCreated<Plain>, HttpError> {
+    let mut r = rng_of(&rq);
+    Ok(HttpResponseCreated(Plain::arb(&mut r, 0)))
+}
+#[endpoint { method = POST, path = "/zoo/resp/accepted", tags = ["response"] }]
+async fn resp_accepted(rq: Rq) -> Result<HttpResponseAccepted<Vec<UnitEnum>>, HttpError> {
+    let mut r = rng_of(&rq);
+    Ok(HttpResponseAccepted(Arb::arb(&mut r, 0)))
+}
+#[endpoint { method = DELETE, path = "/zoo/resp/deleted/{id}", tags = ["response"] }]
+async fn resp_deleted(_rq: Rq, _p: Path<PId>) -> Result<HttpResponseDeleted, HttpError> {
+    Ok(HttpResponseDeleted())
+}
+#[endpoint { method = PUT, path = "/zoo/resp/updated", tags = ["response"] }]
+async fn resp_updated(_rq: Rq) -> Result<HttpResponseUpdatedNoContent, HttpError> {
+    Ok(HttpResponseUpdatedNoContent())
+}
+fn location(rq: &Rq) -> String {
+    let mut r = rng_of(rq);
+    format!("/zoo/target/{}", header_safe(&mut r))
+}
+#[endpoint { method = GET, path = "/zoo/resp/found", tags = ["response-redirect"] }]
+async fn resp_found(rq: Rq) -> Result<HttpResponseFound, HttpError> {
+    http_response_found(location(&rq))
+}
+#[endpoint { method = GET, path = "/zoo/resp/see-other", tags = ["response-redirect"] }]
+async fn resp_see_other(rq: Rq) -> Result<HttpResponseSeeOther, HttpError> {
+    http_response_see_other(location(&rq))
+}
+#[endpoint { method = GET, path = "/zoo/resp/temporary-redirect", tags = ["response-redirect"] }]
+async fn resp_temporary_redirect(rq: Rq) -> Result<HttpResponseTemporaryRedirect, HttpError> {
+    http_response_temporary_redirect(location(&rq))
+}
+#[endpoint { method = GET, path = "/zoo/resp/headers", tags = ["response-headers"] }]
+async fn resp_headers(rq: Rq) -> Result<HttpResponseHeaders<HttpResponseOk<Plain>, HdrOut>, HttpError> {
+    let mut r = rng_of(&rq);
+    Ok(HttpResponseHeaders::new(HttpResponseOk(Plain::arb(&mut r, 0)), HdrOut::arb(&mut r, 0)))
+}
+#[endpoint { method = GET, path = "/zoo/resp/freeform", tags = ["response-freeform"] }]
+async fn resp_freeform(rq: Rq) -> Result<http::Response<Body>, HttpError> {
+    let mut r = rng_of(&rq);
+    let status = *r.pick(&[200u16, 201, 202, 203, 206, 299]);
+    let n = r.usize(64);
+    let body = r.bytes(n);
+    Ok(http::Response::builder()
+        .status(status)
+        .header("content-type", *r.pick(&["text/plain", "application/octet-stream", "image/png"]))
+        .body(body.into())?)
+}
+#[endpoint { method = GET, path = "/zoo/resp/freeform-body", tags = ["response-freeform"] }]
+async fn resp_freeform_body(rq: Rq) -> Result<HttpResponseOk<FreeformBody>, HttpError> {
+    let mut r = rng_of(&rq);
+    let n = r.usize(64);
+    let body = r.bytes(n);
+    Ok(HttpResponseOk(FreeformBody(body.into())))
+}
+#[endpoint { method = GET, path = "/zoo/resp/ranged", tags = ["response"] }]
+async fn resp_ranged(rq: Rq) -> Result<HttpResponseOk<RangedOut>, HttpError> {
+    ok(&rq)
+}
+#[endpoint { method = GET, path = "/zoo/resp/scalar", tags = ["response"] }]
+async fn resp_scalar(rq: Rq) -> Result<HttpResponseOk<u64>, HttpError> {
+    ok(&rq)
+}
+/// F5: the unit type as a response body
+#[endpoint { method = GET, path = "/zoo/resp/unit", tags = ["class:unit-response"] }]
+async fn resp_unit(_rq: Rq) -> Result<HttpResponseOk<()>, HttpError> {
+    Ok(HttpResponseOk(()))
+}
+/// an optional referenceable type as a response body
+#[endpoint { method = GET, path = "/zoo/resp/option", tags = ["class:option-of-reference-response"] }]
+async fn resp_option(rq: Rq) -> Result<HttpResponseOk<Option<Plain>>, HttpError> {
+    ok(&rq)
+}
+#[endpoint { method = GET, path = "/zoo/resp/option-inline", tags = ["response"] }]
+async fn resp_option_inline(rq: Rq) -> Result<HttpResponseOk<Option<Vec<u8>>>, HttpError> {
+    ok(&rq)
+}
+
+// ---------------------------------------------------------------------------
+// endpoints: pagination
+// ---------------------------------------------------------------------------
+
+#[endpoint { method = GET, path = "/zoo/page/items", tags = ["pagination"] }]
+async fn page_items(
+    rq: Rq,
+    q: Query<PaginationParams<ScanParams, PageSel>>,
+) -> Result<HttpResponseOk<ResultsPage<Item>>, HttpError> {
+    let p = q.into_inner();
+    let limit = rq.page_limit(&p)?.get() as usize;
+    let mut r = rng_of(&rq);
+    let scan = match &p.page {
+        WhichPage::First(s) => s.clone(),
+        WhichPage::Next(sel) => ScanParams { project: sel.project.clone(), sort: sel.sort.clone() },
+    };
+    let n = limit.min(r.usize(5));
+    let items: Vec<Item> = (0..n).map(|_| Item::arb(&mut r, 0)).collect();
+    Ok(HttpResponseOk(ResultsPage::new(items, &scan, |item: &Item, scan: &ScanParams| PageSel {
+        project: scan.project.clone(),
+        sort: scan.sort.clone(),
+        last: item.name.clone(),
+    })?))
+}
+
+// ---------------------------------------------------------------------------
+// endpoints: custom error types
+// ---------------------------------------------------------------------------
+
+#[derive(Debug, Serialize, JsonSchema)]
+pub struct StructError {
+    message: String,
+    kind: ErrKind,
+    #[serde(skip)]
+    status: ErrorStatusCode,
+}
+#[derive(Debug, Serialize, JsonSchema)]
+pub enum ErrKind {
+    /// a framework error
+    Framework,
+    Other,
+}
+impl std::fmt::Display for StructError {
+    fn fmt(&self, f: &mut std::fmt::Formatter<'_>) -> std::fmt::Result {
+        f.write_str(&self.message)
+    }
+}
+impl From<HttpError> for StructError {
+    fn from(e: HttpError) -> Self {
+        StructError { message: e.external_message, kind: ErrKind::Framework, status: e.status_code }
+    }
+}
+impl HttpResponseError for StructError {
+    fn status_code(&self) -> ErrorStatusCode {
+        self.status
+    }
+}
+
+#[derive(Debug, Serialize, JsonSchema)]
+pub enum EnumError {
+    Custom { badness: i32 },
+    Http {
+        message: String,
+        error_code: Option<String>,
+        #[serde(skip)]
+        status: ErrorStatusCode,
+    },
+}
+impl std::fmt::Display for EnumError {
+    fn fmt(&self, f: &mut std::fmt::Formatter<'_>) -> std::fmt::Result {
+        write!(f, "{self:?}")
+    }
+}
+impl From<HttpError> for EnumError {
+    fn from(e: HttpError) -> Self {
+        EnumError::Http { message: e.external_message, error_code: e.error_code, status: e.status_code }
+    }
+}
+impl HttpResponseError for EnumError {
+    fn status_code(&self) -> ErrorStatusCode {
+        match self {
+            EnumError::Custom { .. } => ErrorStatusCode::INTERNAL_SERVER_ERROR,
+            EnumError::Http { status, .. } => *status,
+        }
+    }
+}
+
+#[endpoint { method = POST, path = "/zoo/err/struct", tags = ["custom-error"] }]
+async fn err_struct(rq: Rq, _q: Query<QSmall>, _b: TypedBody<Plain>) -> Result<HttpResponseOk<Plain>, StructError> {
+    let mut r = rng_of(&rq);
+    Ok(HttpResponseOk(Plain::arb(&mut r, 0)))
+}
+#[endpoint { method = POST, path = "/zoo/err/enum", tags = ["custom-error"] }]
+async fn err_enum(rq: Rq, _q: Query<QSmall>, _b: TypedBody<Plain>) -> Result<HttpResponseOk<Plain>, EnumError> {
+    let mut r = rng_of(&rq);
+    Ok(HttpResponseOk(Plain::arb(&mut r, 0)))
+}
+
+// ---------------------------------------------------------------------------
+
+pub fn api() -> ApiDescription<ZooCtx> {
+    let mut api = ApiDescription::new();
+    macro_rules! reg {
+        ($($e:ident),* $(,)?) => { $( api.register($e).unwrap_or_else(|e| panic!("register {}: {:?}", stringify!($e), e)); )* };
+    }
+    reg!(
+        path_basic, path_typed, query_scalars, query_optional, query_renamed, query_enums,
+        query_flattened_strings, query_flattened_typed, query_constrained, query_flatten_untagged,
+        path_and_query, body_plain, body_nested, body_ints, body_floats, body_options, body_defaults,
+        body_renamed, body_flattened, body_deny, body_maps, body_enum_external, body_enum_internal,
+        body_enum_adjacent, body_enum_untagged, body_unit_enum, body_vec, body_value, body_stringy,
+        body_tree, body_map_top, body_urlencoded, body_untyped, body_streaming, body_multipart,
+        all_three, resp_created, resp_accepted, resp_deleted, resp_updated, resp_found,
+        resp_see_other, resp_temporary_redirect, resp_headers, resp_freeform, resp_freeform_body,
+        resp_ranged, resp_scalar, resp_unit, resp_option, resp_option_inline, page_items,
+        err_struct, err_enum,
+    );
+    api
+}
+
+pub fn document() -> Value {
+    api().openapi("zoo", semver::Version::new(1, 0, 0)).json().expect("openapi json")
+}
+
+/// `c07-zoo-serve`: print `PORT <n>` and `DOC <path>`, serve until stdin closes.
+pub fn serve(doc_path: &str, workers: usize) {
+    use std::io::{Read, Write};
+    let doc = document();
+    let path = if doc_path.is_empty() {
+        std::env::temp_dir().join(format!("vmon_oas_zoo_{}.json", std::process::id())).to_string_lossy().to_string()
+    } else {
+        doc_path.to_string()
+    };
+    std::fs::write(&path, serde_json::to_string_pretty(&doc).unwrap()).expect("write document");
+    let rt = tokio::runtime::Builder::new_multi_thread()
+        .worker_threads(workers.max(1))
+        .enable_all()
+        .build()
+        .expect("runtime");
+    let config = ConfigDropshot {
+        bind_address: "127.0.0.1:0".parse().unwrap(),
+        default_request_body_max_bytes: 1 << 20,
+        default_handler_task_mode: HandlerTaskMode::Detached,
+        log_headers: vec![],
+    };
+    let server = rt
+        .block_on(async move {
+            ServerBuilder::new(api(), ZooCtx, vmon::srv::discard_logger()).config(config).start()
+        })
+        .expect("start zoo server");
+    let out = std::io::stdout();
+    {
+        let mut o = out.lock();
+        writeln!(o, "PORT {}", server.local_addr().port()).unwrap();
+        writeln!(o, "DOC {}", path).unwrap();
+        o.flush().unwrap();
+    }
+    // serve until stdin closes
+    let mut buf = [0u8; 256];
+    let mut stdin = std::io::stdin();
+    loop {
+        match stdin.read(&mut buf) {
+            Ok(0) | Err(_) => break,
+            Ok(_) => {}
+        }
+    }
+    let _ = rt.block_on(async {
+        tokio::time::timeout(std::time::Duration::from_secs(10), server.close()).await
+    });
+    rt.shutdown_background();
+}
